@@ -1209,7 +1209,7 @@ func (s *Entry) printLoggerName(pc *PrintCtx) {
 				pc.pcAppendStringKey("logger")
 				pc.pcAppendColon()
 				pc.pcAppendByte('"')
-				pc.pcAppendStringValue(s.name)
+				pc.appendEscapedJSONString(s.name) // a name is user input too: quotes, backslashes, control bytes
 				pc.pcAppendByte('"')
 			} else {
 				pc.AddString("logger", s.name)
